@@ -73,3 +73,36 @@ Proof.
       repeat (apply Forall_cons; split); try apply Forall_nil; try exact I; try (split; [cbn; lia|vm_compute; reflexivity]).
   - unfold C02_example_ops. repeat (apply Forall_cons; split); try apply Forall_nil; try exact I; lia.
 Qed.
+
+(* ProcessBlock in two phases (parent check ... merkle validation ... add), as the real code runs it.
+   The model's atomic `process_block` is check-then-add (C02_process_is_check_then_add); the add keeps
+   the chain hash-linked when nobody changed the chain since the check (C02_two_phase_locked: what
+   BlockRepository.LockChain of /repo fix e0141dc provides); it does NOT when a headers message is
+   handled in between (C02_two_phase_interleaved_refuted: the pre-fix history that
+   gen/parentrace.py replays on the real threads, code 215). *)
+From V.proofs Require Import Sync_TwoPhase.
+
+Theorem C02_process_is_check_then_add :
+  forall (s : sync) (h : hdr) (v : bool),
+    process_block s h v = if process_check s h v then process_add s h else (s, 1).
+Proof. exact process_block_two_phase. Qed.
+Print Assumptions C02_process_is_check_then_add.
+
+Theorem C02_two_phase_locked :
+  forall (s s' : sync) (h : hdr) (v : bool) (c' : list hdr),
+    chain s = genesis_hdr :: c' ->
+    chain s' = chain s ->
+    linked_from (-1) (chain s) = true ->
+    process_check s h v = true ->
+    linked_from (-1) (chain (fst (process_add s' h))) = true.
+Proof. exact two_phase_locked. Qed.
+Print Assumptions C02_two_phase_locked.
+
+Theorem C02_two_phase_interleaved_refuted :
+  exists (s : sync) (h : hdr) (hs : list hdr),
+    chain_ok (chain s) /\
+    process_check s h true = true /\
+    map fst (chain (fst (handle_headers 10 100000000 s hs))) = [0; 1] /\
+    linked_from (-1) (chain (fst (process_add (fst (handle_headers 10 100000000 s hs)) h))) = false.
+Proof. exact two_phase_interleaved_refuted. Qed.
+Print Assumptions C02_two_phase_interleaved_refuted.
